@@ -129,7 +129,9 @@ def build_world():
     contract(w, 'iface.IMech.cancel', {'self': Ref(MECH)}, fn=cancel,
              modifies=lambda cx: [(cx.args['self'], MECH + '.g_cancelled')],
              ensures=lambda cx: [('cancelled', cx.new(cx.args['self']).g_cancelled)], assumed=True)
-    contract(w, 'iface.IMech.getUserName', {'self': Ref(MECH)}, fn=getUserName, result=OPAQUE, assumed=True)
+    # looking the peer's name up may fail (no passwd entry for the uid): whatever it raises
+    contract(w, 'iface.IMech.getUserName', {'self': Ref(MECH)}, fn=getUserName, result=OPAQUE, assumed=True,
+             raises={KeyError: lambda cx: z3.BoolVal(True)})
     contract(w, 'iface.IMech.init', {'self': Ref(MECH), 'protocol': Ref(AP)}, fn=init, assumed=True)
 
     MAXR = au.BusAuthenticator.MAX_REJECTS_ALLOWED
@@ -212,12 +214,15 @@ def build_world():
 
     contract(w, 'txdbus.authentication.BusAuthenticator.handleAuthMessage', {'self': Ref(A), 'line': BYTES},
              requires=handle_pre, ensures=handle_post,
-             raises={DBusAuthenticationFailed: failed_when},
+             raises={DBusAuthenticationFailed: failed_when, KeyError: lambda cx: z3.BoolVal(True)},
+             # whatever escapes - a failed name lookup included - never leaves the peer marked as authenticated
+             raises_post={KeyError: lambda cx: [('a line that raises does not authenticate', z3.Not(cx.new(cx.args['self']).authenticated))],
+                          DBusAuthenticationFailed: lambda cx: [('a line that raises does not authenticate', z3.Not(cx.new(cx.args['self']).authenticated))]},
              modifies=lambda cx: [(cx.args['self'], A + '.' + f) for f in ('authenticated', 'guid', 'reject_count', 'state', 'current_mech')] +
              [('*', AP + '.g_nsent'), ('*', AP + '.g_last'), ('*', MECH + '.g_cancelled'), ('*', MECH + '.g_steps'), ('*', MECH + '.g_last_status')])
 
     # ---------------- mechanisms against the interface contract
-    w.add_class(ClassSpec('BusExternalAuthenticator', au.BusExternalAuthenticator, {'ok': BOOL, 'creds': OPAQUE, 'g_has_creds': BOOL}))
+    w.add_class(ClassSpec('BusExternalAuthenticator', au.BusExternalAuthenticator, {'ok': BOOL, 'creds': OPAQUE, 'g_has_creds': BOOL, 'g_uid': INT}))
 
     class _Hook:
         pass
@@ -229,10 +234,14 @@ def build_world():
         if not shape:
             return [('shape', z3.BoolVal(False))]
         status = r.items[0].term
+        # peer credentials = the (pid, uid, gid) the kernel reports for a UNIX socket; a socket of another kind yields uid -1
+        known = z3.And(o.g_has_creds, o.g_uid >= 0)
         return [('accepts-only-with-peer-credentials-on-the-second-step',
-                 z3.Implies(status == sv('OK'), z3.And(o.g_has_creds, o.ok))),
+                 z3.Implies(status == sv('OK'), z3.And(known, o.ok))),
+                ('without credentials (none read, or a uid the kernel did not report) the mechanism refuses',
+                 z3.Implies(z3.Not(known), z3.And(status != sv('OK'), status != sv('CONTINUE')))),
                 ('challenge-is-text-or-bytes', z3.BoolVal(not (status.eq(sv('CONTINUE'))) or isinstance(r.items[1], (VStr, VBytes)))),
-                ('with-credentials: CONTINUE then OK', z3.Implies(o.g_has_creds, z3.If(o.ok, status == sv('OK'), z3.And(status == sv('CONTINUE'), n.ok))))]
+                ('with-credentials: CONTINUE then OK', z3.Implies(known, z3.If(o.ok, status == sv('OK'), z3.And(status == sv('CONTINUE'), n.ok))))]
 
     contract(w, 'txdbus.authentication.BusExternalAuthenticator.step', {'self': Ref('BusExternalAuthenticator'), 'arg': OPAQUE},
              ensures=ext_post, modifies=lambda cx: [(cx.args['self'], 'BusExternalAuthenticator.ok')])
@@ -246,9 +255,10 @@ class ModelsExt(Models06):
 
     def creds(self, I, obj, name):
         if isinstance(obj, VRef) and obj.cls == 'BusExternalAuthenticator' and name == 'creds':
-            # truthiness of the credentials tuple is all step() looks at
+            # None, or the triple (pid, uid, gid) unpacked from SO_PEERCRED
             has = I.ctx.heap_read(obj, 'g_has_creds')
-            return VTuple([VInt(1)]) if I.ctx.branch(has.term) else VNone()
+            uid = I.ctx.heap_read(obj, 'g_uid')
+            return VTuple([VInt(1), VInt(uid.term), VInt(1)]) if I.ctx.branch(has.term) else VNone()
         return None
 
 
@@ -508,6 +518,26 @@ def protocol_cases():
                     return 'EXTERNAL client with peer credentials (%s) raised %s: %s' % (how, type(e).__name__, e)
                 if not p._authenticated or t.disconnecting:
                     return 'an EXTERNAL client whose uid matches the peer credentials (%s) was not accepted: replies %r, closed=%r' % (how, t.value(), t.disconnecting)
+            # a socket of another kind (a TCP listener) yields (0, -1, -1): no credentials - EXTERNAL is refused, and nothing
+            # the peer sends afterwards makes it authenticated without a mechanism accepting it
+            class NoCredSocket:
+                def getsockopt(self, level, opt, size):
+                    return _st.pack('3i', 0, -1, -1)
+
+            class NoCredTransport(StringTransport):
+                socket = NoCredSocket()
+            p = bus.BusProtocol()
+            p.factory = F
+            t = NoCredTransport()
+            p.makeConnection(t)
+            try:
+                for chunk in (b'\0AUTH EXTERNAL 30\r\n', b'DATA\r\n', b'BEGIN\r\n', b'FOO\r\n', b'BEGIN\r\n'):
+                    if not t.disconnecting:
+                        p.dataReceived(chunk)
+            except Exception as e:
+                return 'EXTERNAL on a socket without peer credentials raised %s: %s (replies %r)' % (type(e).__name__, e, t.value())
+            if p._authenticated or any(l.startswith(b'OK') for l in t.value().split(b'\r\n')):
+                return 'EXTERNAL on a socket without peer credentials: replies %r, authenticated=%r' % (t.value(), p._authenticated)
         finally:
             protocol._is_linux = False
         # acceptable credentials are accepted: ANONYMOUS, and EXTERNAL with peer credentials
